@@ -288,10 +288,16 @@ inductive Op where
   /-- `Add…Listener`: `notify_add_*_listener` inserts a `ListenSession` and
       bumps `base_sessions_count` -/
   | addListener
-  /-- `RemoveListener`: the slab entry goes and `base_sessions_count` with it -/
+  /-- `DeactivateListener` followed by `RemoveListener` of the same listener (the
+      balanced pair: the first removes the slab entry, the second lowers
+      `base_sessions_count`; `RemoveListener` of a still active listener is the
+      C08 finding `no-final-answer:SoftStop:listener-removed-while-active`) -/
   | removeListener
   /-- `ReturnListenSockets` -/
   | returnListeners
+  /-- `DeactivateListener`: `notify_deactivate_listener` hands one listener back and
+      removes its `ListenSession` from the slab; `base_sessions_count` is not touched -/
+  | deactivateListener
   deriving DecidableEq, Repr
 
 inductive Out where
@@ -329,6 +335,9 @@ def step (w : W) : Op → W × Out
     else ({ w with slab := w.slab - 1, base := w.base - 1, listeners := w.listeners - 1 }, .none)
   | .returnListeners =>
     if w.exited then (w, .none) else ({ w with listening := false }, .none)
+  | .deactivateListener =>
+    if w.exited ∨ w.listeners = 0 then (w, .none)
+    else ({ w with slab := w.slab - 1, listeners := w.listeners - 1 }, .none)
 
 def run (w : W) (ops : List Op) : W := ops.foldl (fun s o => (step s o).1) w
 
